@@ -161,7 +161,7 @@ main (int argc, char **argv)
     {
 	long long f[40];
 	int n = 28, i, k = 0;
-	int pair, variant, cmp, op, skind, sw, sh, srep, sfilt, mkind, dw, dh, sx, sy, dx, dy, w, h, quant;
+	int pair, variant, cmp, op, skind, sw, sh, srep, sfilt, mkind, dw, dh, sx, sy, dx, dy, w, h, quant, drep;
 	pixman_format_code_t sfmt, dfmt;
 	pixman_fixed_t t[6];
 	uint64_t seed;
@@ -178,6 +178,9 @@ main (int argc, char **argv)
 	dfmt = (pixman_format_code_t)f[k++]; dw = (int)f[k++]; dh = (int)f[k++];
 	sx = (int)f[k++]; sy = (int)f[k++]; dx = (int)f[k++]; dy = (int)f[k++]; w = (int)f[k++]; h = (int)f[k++];
 	seed = (uint64_t)f[k++]; quant = (int)f[k++];
+	drep = (quant >> 1) & 1;       /* bit 1: the destination is given REPEAT_NORMAL (pixman then knows an
+				    * alpha-less destination to be opaque) */
+	quant &= 1;
 	memset (&s, 0, sizeof s); memset (&m, 0, sizeof m);
 
 	/* the scripted request, echoed for the specification */
@@ -243,6 +246,8 @@ main (int argc, char **argv)
 	}
 	/* destination: opaque varying content (alpha 255 where the format has alpha) */
 	make_image (&d, dfmt, dw, dh, seed ^ 0xd57, quant, 0, 0);
+	if (drep)
+	    pixman_image_set_repeat (d.img, PIXMAN_REPEAT_NORMAL);
 	pixman_image_composite32 ((pixman_op_t)op, src, mask, d.img, sx, sy, 0, 0, dx, dy, w, h);
 	vt_begin ("Res");
 	vt_int ("pair", pair); vt_int ("variant", variant); vt_int ("cmp", cmp);
